@@ -33,6 +33,7 @@ def run(c, chk):
         from . import c01, c08
         chk.rule('R4.9', 'every value token written for a declared option reaches the store (the parser table equals the reference automaton, rule R1.1 of C01)')
         c01.grammar(c, c08.chk_proxy(chk, {'R1.1': 'R4.9'}), pm.ParserModel(c))
+    bulk_converts_all(c, chk)
     chk.assumptions = ['strtol\'s own grammar (leading blanks, "+") and inf/nan for floats are not decided']
     fn = c.need('cfg_setopt')
     ex = sym.Explorer(c.modules, max_visits=2, mod_sets=c.mod_sets, max_paths=100000)
@@ -365,3 +366,38 @@ def table_lookup(c, fn, ex):
                 if fall is None or p.retval != ('c', -1):
                     fall = p.retval
     return out, fall
+
+
+def bulk_converts_all(c, chk):
+    """R4.10: "a bulk set containing an unconvertible element at any position" is refused only if every element is handed to
+    the conversion: the token loop of cfg_opt_setmulti() starts with the first token and takes them one by one"""
+    chk.rule('R4.10', 'the bulk setter hands every token of the vector to the conversion, beginning with the first (none is skipped as "overwritten anyway")')
+    fn = c.need('cfg_opt_setmulti')
+    ex = sym.Explorer(c.modules, max_visits=3, mod_sets=c.mod_sets, max_paths=100000)
+    n = 0
+    bad = None
+    for p in ex.explore(fn):
+        calls = [e for e in p.events if e.kind == 'call' and not e.inlined and e.name == 'cfg_setopt']
+        if not calls:
+            continue
+        n += 1
+        want = 0
+        for e in calls:
+            a = e.args[2] if len(e.args) > 2 else None
+            idx = None
+            if a is not None and a[0] == 'ld':
+                if a[1] == ('p', 'values'):
+                    idx = 0
+                elif a[1][0] == 'idx' and a[1][1] == ('p', 'values') and sym.is_const(a[1][2]):
+                    idx = a[1][2][1]
+            if idx != want:
+                bad = bad or (p, e, want, a)
+                break
+            want += 1
+    if bad is not None:
+        p, e, want, a = bad
+        chk.fail('R4.10', 'bulk-skips-token', c.where(e.ins), 'cfg_opt_setmulti() converts %s where token %d of the vector is due (%s): tokens that are never handed to the '
+                 'conversion cannot be refused, a vector with an invalid token in front is accepted' % (sym.render(a) if a else '?', want, fp.cond_text(p, 4)))
+    elif n:
+        chk.ok('R4.10', 'cfg_opt_setmulti: %d paths through the token loop' % n, 'tokens 0, 1, 2, ... in order', sample=True)
+    chk.floor('R4.10 paths through the token loop', n, 2)
